@@ -8,6 +8,7 @@ From Coq Require Import NArith ZArith List Bool.
 From ZV.Codec Require Import Bytes.
 From ZV.Stream Require Import DStreamModel CStreamModel CStreamProofs StreamInst.
 From ZV.Stream Require Import DStreamSpec DStreamCont DStreamProofs DStreamSpecLink DStreamRefine.
+From ZV.Stream Require Import WindowModel WindowProofs.
 Import ListNotations.
 Local Open Scope N_scope.
 
@@ -167,3 +168,27 @@ Theorem C02_spec_decode_sound :
   SValid H b_init b_raw b_rle b_cblock b_hash P src content.
 Proof. exact spec_decode_svalid. Qed.
 Print Assumptions C02_spec_decode_sound.
+
+(* ================= the compressor's match-state window ================= *)
+
+(* window_sound.  ZSTD_window_update + the maximum-distance rule of the block loop, for EVERY sequence of source segments
+   (any addresses: contiguous or not, overlapping or re-using earlier places - the streaming compressor's wrapping input
+   buffer, user round buffers of the buffer-less API, separate allocations): after the sequence every index a match finder
+   may use (lowLimit <= i < nextSrc - base) names a byte of the logical history, and the memory at the address the index
+   stands for (dictBase + i below dictLimit, base + i above) still holds exactly that byte - no valid index points at
+   memory that later input has overwritten. *)
+Theorem C02_window_sound :
+  forall (a0 : Z) (bs maxDist : N) (segs : list seg),
+  let '(w, m, h) := w_run a0 bs maxDist segs in
+  forall i, w_lowLimit w <= i < w_end w -> exists b, h i = Some b /\ m (w_addr w i) = Some b.
+Proof. exact window_sound. Qed.
+Print Assumptions C02_window_sound.
+
+(* the external-dictionary segment left by ZSTD_window_update never overlaps the segment just added *)
+Theorem C02_window_extdict_disjoint :
+  forall (w : wstate) (ip : Z) (n : N) (force : bool),
+  1 <= n -> let w' := fst (w_update w ip n force) in
+  forall i, w_lowLimit w' <= i < w_dictLimit w' ->
+    (w_dictBase w' + Z.of_N i < ip \/ ip + Z.of_N n <= w_dictBase w' + Z.of_N i)%Z.
+Proof. exact window_extdict_disjoint. Qed.
+Print Assumptions C02_window_extdict_disjoint.
